@@ -515,7 +515,11 @@ def read_tles_from_mmam_xml_files(paths):
     fnames = collect_filenames(paths)
     tles = []
     for fname in fnames:
-        data = read_tle_from_mmam_xml_file(fname).split("\n")
+        text = read_tle_from_mmam_xml_file(fname)
+        if not text:
+            # message without navigation entries
+            continue
+        data = text.split("\n")
         for two_lines in _group_iterable_to_chunks(2, data):
             tl_stream = io.StringIO("\n".join(two_lines))
             tles.append(Tle("", tle_file=tl_stream))
